@@ -40,7 +40,8 @@ EXPLANATION = (
     "returns at the first match. "
     "(Y3, accessor) The request accessors the proxy reads path and query through return the raw, still percent-escaped components. "
     "(Y5, sharing) each proxy location gets its own ProxyHandler (none is kept in a container). (Y6) the proxy's client sends the joined URL with path and query as given (C19.N1-N3). "
-    "(Y5, fresh) the handler registered for a location is built in that iteration from that location."
+    "(Y5, fresh) the handler registered for a location is built in that iteration from that location. "
+    "(Y7) the proxy handler writes no attribute of self outside __init__."
 )
 
 PROXY = "server.proxy:ProxyHandler"
